@@ -50,10 +50,16 @@ param_value_pattern = re.compile(br'\=([\x21-\x3C\x3E-\x7F]+)')
 
 def find_outside_quotes(haystack, needle, start_i=0, quotes=b'"'):
     quoted = None
+    escaped = False
     h_len = len(haystack)
     n_len = len(needle)
     for i in range(start_i, h_len-n_len+1):
-        if not quoted:
+        if escaped:
+            # The character after a backslash inside quotes is literal.
+            escaped = False
+        elif quoted and haystack[i:i+1] == b'\\':
+            escaped = True
+        elif not quoted:
             if haystack[i:i+n_len] == needle:
                 return i
             for quote in quotes:
